@@ -20,6 +20,8 @@ func init() {
 			"(3) revoke-before-rejoin: groupConsumer.heartbeat returns only under didRevoke (set only by receiving from the channel returned by s.revoke) or for an error that is not RebalanceInProgress (then the manage loop runs onLost through manageFailWait / abandonAssignment before the next join); the assign goroutine waits for prerevokeDone before onAssigned, the revoke goroutine waits for assignDone before g.revoke, each done channel is closed by a first-statement defer of its own goroutine only; setupAssignedAndHeartbeat returns only after <-s.assignDone, <-fetchDone and the heartbeat goroutine's result; the eager site clears nowAssigned/lastAssigned after the callback, the cooperative rejoin signal is deferred only after the callback; manage / manage848 reach the next joinAndSync / initialJoin only with err == nil or through manageFailWait / abandonAssignment; a rejoin signal is received only by the heartbeat loop (turned into RebalanceInProgress) or drained before the join request / initial heartbeat is built from live state (never after); " +
 			"KIP-848: while g848.prerevoking is set the heartbeat closure strips the request to a keepalive (Topics = nil) whatever else holds; prerevoking is set synchronously in prerevoke before setupAssignedAndHeartbeat spawns the heartbeat goroutine and cleared only after g.revoke returned; after a response changed the assignment (handleResp stores nowAssigned and returns it, the closure turns that into errReassigned848) the loop sends no further heartbeat in that session; mkreq acknowledges exactly nowAssigned; onAssigned receives diffAssigned's added set (now minus last), prerevoke its lost set; " +
 			"(3b) completeness after partition growth: the leader's balanceGroup hands initExternal (which stores a copy) the very map it balances, no partition count is written to that map after the call, and the call lies on every path from the group-topics metadata fetch to Balance / BalanceOrError - otherwise topics only other members consume are not watched, their new partitions never trigger a rejoin and stay unowned; " +
+			"(3c) a classic cooperative member that revoked lost partitions (len(lost) > 0, not leaving, stage revokeLastSession, not KIP-848) passes g.rejoin (a registered defer counts) on every path to revoke's exit, including the early return when nothing is uncommitted; " +
+			"(4b) AdjustCooperative: for every topic a member currently owns its owned partitions are walked (no skip when nothing of the topic is planned), a topic absent from the member's plan has every owned partition recorded in the revoked set, and every revoked partition that another member was newly given leads to an update of that member's planned topic entry; " +
 			"(4) cooperative wiring: stickyBalancer.Balance calls AdjustCooperative on every path when s.cooperative; IsCooperative, ProtocolName, JoinGroupMetadata's OwnedPartitions and the constructors agree; handleJoinResp stores the chosen balancer's IsCooperative into g.cooperative and manage848 stores true; the eager revoke passes the full assignment (g.nowAssigned.read()).",
 		NotDecided:  "the broker half (coordinator generations, KIP-848 epochs; pkg/kfake/groups.go is not analysed: no simple structural rule was found for its pending-revocation bookkeeping), the balancers' outputs (AdjustCooperative's and diffAssigned's set arithmetic beyond the guard facts), convergence to a complete assignment, and timing (a revoke callback outliving the session timeout).",
 		Assumptions: []string{"user callbacks return (OnPartitionsRevoked completing is what releases a partition)", "C41 lock/guard tables for nowAssigned / lastAssigned"},
@@ -51,6 +53,8 @@ func runC07(c *Ctx) {
 	x.diffAssigned()
 	x.wiring()
 	x.external()
+	x.rejoinOnEveryExit()
+	x.adjustCooperative()
 }
 
 func (x *c07x) fn(key string) *Func { return x.c.NeedFunc(x.m, key) }
